@@ -195,7 +195,7 @@ def gen_request(rng, cfg, body_kind=None, expect=False, method=None, allow_pipel
     elif body_kind == "chunked":
         extra.append((b"Transfer-Encoding", rng.choice([b"chunked", b"Chunked"]) if lim["line"] > 30 else b"c"))
         total = 0
-        for _ in range(rng.randint(0, 3)):
+        for _ in range(rng.randint(0, 3) if rng.random() < 0.85 else rng.randint(12, 40)):
             n = rng.choice([1, 2, 5, 16, 17, 255]) if cfg.inst == "D" else rng.choice([1, 2, 7])
             n = min(n, cfg.maxchunk)
             if cfg.concat and total + n > cfg.maxcontent:
@@ -357,7 +357,7 @@ def gen_response(rng, cfg):
         extra.append((b"Content-Length", b"%d" % n))
     else:
         extra.append((b"Transfer-Encoding", rng.choice([b"chunked", b"Chunked"]) if lim["line"] > 30 else b"c"))
-        for _ in range(rng.randint(0, 3)):
+        for _ in range(rng.randint(0, 3) if rng.random() < 0.85 else rng.randint(12, 40)):
             n = rng.choice([1, 2, 5, 16, 17, 255]) if cfg.inst == "D" else rng.choice([1, 2, 7])
             n = min(n, cfg.maxchunk)
             chunks.append(bytes(rng.randrange(256) for _ in range(n)))
